@@ -51,10 +51,21 @@ def build_input(M, kind):
     return sp.coo_array((data, (rows, cols)), shape=(n, n))
 
 
+def const_arg(c):
+    """The constant as a caller may write it: an even integer value arrives as a Python int (`QUBOContainer(M, 0)`),
+    an odd multiple of 3 as a numpy integer, everything else as a float."""
+    import numpy as np
+    if c.denominator == 1 and c.numerator % 2 == 0:
+        return int(c)
+    if c.denominator == 1 and c.numerator % 3 == 0:
+        return np.int64(int(c))
+    return float(c)
+
+
 def run_impl(case):
     from vrpqubo.tools.qubo_tools import QUBOContainer
     M, c, pat, kind, os_, tol = case
-    qc = QUBOContainer(build_input(M, kind), float(c), pat)
+    qc = QUBOContainer(build_input(M, kind), const_arg(c), pat)
     if tol is None:
         return qc.report(obj_stats=os_)
     return qc.report(obj_stats=os_, tol=float(tol))
@@ -174,6 +185,8 @@ def fixed_cases():
     out.append(([[F(1), F(-1)], [F(-1), F(1)]], Z))   # 0, 1, 1, 0: ties for optimum and for runner-up
     out.append((diag([0, 0, 0]), F(-5, 8)))           # all equal
     out.append(([[Z, F(1)], [F(-1), Z]], F(1, 2)))    # off-diagonal entries cancel: nnz 0, all equal
+    out.append(([[F(1, 2)]], Z))                      # fractional values next to a constant written as the int 0
+    out.append((diag([F(1, 4), F(-3, 4)]), F(3)))     # ... and as a numpy integer
     out.append((diag([F(1, 8), F(-1, 8), F(1, 8), F(1, 4)]), F(1, 16)))
     out.append(([[F(2), F(-4), Z], [Z, F(2), F(-4)], [Z, Z, F(2)]], Z))
     # large magnitudes with closely spaced values: exact comparison (|a - b| <= 1e-16) must not become a relative one
